@@ -131,15 +131,16 @@ Print Assumptions c12_opacity.
 
 (* HISTORIES.  On one Ribosome instance every operation of a history - registrations
    (create_template, register_template with or without a name override, re-registration),
-   synthesize / translate of an mRNA object, translate by name - answers the pure function
-   [result_on] of (the registry AS IT IS AT THAT MOMENT, strict, the operation): for a render,
-   render_impl on the current registry.  Whatever an earlier call did - rendered, raised inside
-   an include, bumped the counters, carried an mRNA whose own .name equals a registered name -
-   leaves no trace.  (The filter table is fixed at construction; translate() only reads it.) *)
+   filters stored after construction (r.filters[name] = f), synthesize / translate of an mRNA
+   object, translate by name - answers the pure function [result_on] of (the filter table and the
+   registry AS THEY ARE AT THAT MOMENT on this instance, strict, the operation): for a render,
+   render_impl with the current filter table on the current registry.  Whatever an earlier call
+   did - rendered, raised inside an include, bumped the counters, carried an mRNA whose own .name
+   equals a registered name - leaves no trace. *)
 Theorem c12_render_uses_current_registry :
-  forall (F : FTable) T strict n os,
-    Model.run_ops (Model.mkInstance T strict n) os = replay strict T os.
-Proof. exact @current_registry_proof. Qed.
+  forall (F : ftable) T strict n os,
+    Model.run_ops (Model.mkInstance F T strict n) os = replay strict F T os.
+Proof. exact current_registry_proof. Qed.
 Print Assumptions c12_render_uses_current_registry.
 
 (* ... where a registration is dict assignment on the registry *)
@@ -148,3 +149,39 @@ Theorem c12_registration_is_assignment :
     lookup (Model.reg_set T n t) m = if str_eqb n m then Some t else lookup T m.
 Proof. exact (@lookup_reg_set nil eq_refl). Qed.
 Print Assumptions c12_registration_is_assignment.
+
+(* ... and storing a filter is dict assignment on the instance's filter table: afterwards {{x|n}}
+   is a filtered variable applying the new callable, and every other word reads as before
+   (a default stays a default, another filter stays that filter). *)
+Theorem c12_filter_store_is_assignment :
+  forall (F : ftable) n cf m,
+    lookup (Model.ft_set F n cf) m = (if str_eqb n m then Some cf else lookup F m) /\
+    @is_filter (Model.ft_set F n cf) m = (str_eqb n m || @is_filter F m).
+Proof. exact (fun F n cf m => conj (lookup_ft_set F n cf m) (is_filter_ft_set F n cf m)). Qed.
+Print Assumptions c12_filter_store_is_assignment.
+
+(* SEVERAL INSTANCES.  In a process with any number of Ribosome objects ([run_sys]: instances are
+   created at any moment, each operation is addressed to one of them), the answers instance j
+   gives are exactly the history of a LONE instance that starts in j's state and is given the
+   operations addressed to j, in order ([ops_on j]); with c12_render_uses_current_registry: every
+   render on j is render_impl with j's OWN filter table and j's OWN registry as they are at that
+   moment, under j's own strict flag.  Whatever is done to other instances - filters stored,
+   templates registered, renders, exceptions - and whichever instances are created meanwhile
+   cannot change how j reads {{name|word}}, what {{>name}} includes, or anything else. *)
+Theorem c12_instances_isolated :
+  forall ops sys j i,
+    nth_error sys j = Some i ->
+    rows_of j (Model.run_sys sys ops) = Model.run_ops i (ops_on j ops) /\
+    (forall r, In r (Model.run_sys sys ops) -> fst (fst r) = j -> snd (fst r) = Model.i_strict i).
+Proof. exact (fun ops sys j i H => conj (isolated_proof ops sys j i H) (sys_rows_strict ops sys j i H)). Qed.
+Print Assumptions c12_instances_isolated.
+
+(* ... and an instance constructed at ANY moment, whatever state [sys] the instances that already
+   exist are in (any filters stored on them, any registrations), behaves as the lone instance of
+   its own constructor arguments. *)
+Theorem c12_fresh_instance_unaffected :
+  forall sys F T strict ops,
+    rows_of (length sys) (Model.run_sys sys (Model.SNew F T strict :: ops)) =
+    Model.run_ops (Model.mkInstance F T strict 0) (ops_on (length sys) ops).
+Proof. exact fresh_instance_proof. Qed.
+Print Assumptions c12_fresh_instance_unaffected.
